@@ -7,6 +7,7 @@ CONSTANTS
   CertRound = FALSE
   Creds = {"ok", "bad"}
   Known = {}
+  Replay = {"Prevote", "Precommit"}
   Mode = "G"
   MaxOps = 1000000
 CONSTRAINT HighWater
